@@ -152,7 +152,8 @@ func runC19(c *Ctx) {
 		c.Undecided("R-VSET", cbFn("ReadASN1Boolean"), "anchor", "-", "not found")
 	}
 	// ---- GeneralizedTime (cryptobyte)
-	if fn := w.Fn(cbFn("ReadASN1GeneralizedTime")); fn != nil {
+	timeZoneRules(c)
+	if fn :=w.Fn(cbFn("ReadASN1GeneralizedTime")); fn != nil {
 		c.Cut(CutSpec{Rule: "R-VSET", Fn: fn, Label: "GeneralizedTime accepted only if re-formatting reproduces the input", Target: TrueReturn(0, nil),
 			Cut: Cmp(func(v ssa.Value) bool {
 				cl := callOf(v)
